@@ -387,6 +387,14 @@ def run(ctx) -> list[Inst]:
                 for l_ in ('T', 'F'):
                     if _always_raises(cfg, g, l_):
                         lab = l_
+                if lab is None and idiom and idiom.startswith('1:') and 'EOF' in stmt_text(g.ast.test):
+                    # the leftover is reported through the parser's listeners, and the listener installed on the parser
+                    # always raises (idiom 1 above): `parser.notifyErrorListeners(msg, token)` under the test is a raise
+                    for l_, blk in (('T', g.ast.body), ('F', g.ast.orelse)):
+                        if any(isinstance(s_, ast.Expr) and isinstance(s_.value, ast.Call) and isinstance(s_.value.func, ast.Attribute)
+                               and s_.value.func.attr == 'notifyErrorListeners' and isinstance(s_.value.func.value, ast.Name)
+                               and s_.value.func.value.id == parser_var for s_ in blk):
+                            lab = l_
                 rets = [x for x in cfg.nodes if x.kind == 'stmt' and isinstance(x.ast, ast.Return)
                         and cfg.dominates(parse_node, x)]
                 if lab and all(cfg.dominates(g, r) for r in rets):
